@@ -16,7 +16,7 @@ type MapCodec struct {
 func (m *MapCodec) Read(r *ReadBuf, p unsafe.Pointer) error {
 	// p is a pointer to a map pointer
 	if *(*unsafe.Pointer)(p) == nil {
-		*(*unsafe.Pointer)(p) = m.New(r)
+		*(*unsafe.Pointer)(p) = unsafe.Pointer(reflect.MakeMap(m.rtype).Pointer())
 	}
 	mp := *(*unsafe.Pointer)(p)
 
@@ -101,7 +101,10 @@ func (m *MapCodec) Skip(r *ReadBuf) error {
 }
 
 func (m *MapCodec) New(r *ReadBuf) unsafe.Pointer {
-	return unsafe.Pointer(reflect.MakeMap(m.rtype).Pointer())
+	// Like every other New this returns a pointer to a (zero) value of the
+	// codec's type, that is a pointer to a nil map variable. Read creates the
+	// map itself.
+	return r.Alloc(m.rtype)
 }
 
 func (m *MapCodec) Omit(p unsafe.Pointer) bool {
